@@ -483,4 +483,6 @@ def r8(ctx):
         k = [c for c in walk_own(fi.node) if isinstance(c, ast.Call) and norm(c.func) == "AESGCM"]
         ctx.check(len(k) == 1 and [norm(a) for a in k[0].args] == [fi.params[0]], "C01.R8", fi, "%s keys AESGCM with its key parameter" % fi.name, witness=[norm(c) for c in k])
 
+EXPLANATION = EXPLANATION + " (R8) decrypt_gcm / encrypt_gcm are thin wrappers: every exception of the AES-GCM primitive propagates to the caller, its result is returned unchanged and the arguments are the parameters in the primitive's order (the assumption about AES-GCM is about the primitive, so nothing may stand between its verdict and from_bytes)."
+
 RULES = [("C01.R1", r1), ("C01.R2", r2), ("C01.R3", r3), ("C01.R4", r4), ("C01.R5", r5), ("C01.R6", r6), ("C01.R7", r_enum), ("C01.R8", r8)]
